@@ -1,6 +1,7 @@
 import Driver.Hist
 import Driver.Contract
 import Driver.FragJudge
+import Driver.StrictJudge
 /- Driver.Dispatch — property id → judge. -/
 namespace Driver
 open Muxide Muxide.Spec
@@ -121,6 +122,8 @@ def judge (prop kind id rest impl : String) : Verdict :=
   | "C13" => judgeC13 id rest impl
   | "C10" => judgeFrag id rest impl projC10 oracleC10
   | "C11" => judgeFrag id rest impl projC11 oracleC11
+  | "C19" => judgeC19 kind id rest impl
+  | "C07" => judgeC07 kind id rest impl
   | "C04" => judgeC04 id rest impl
   | "C05" => judgeC05 id rest impl
   | _ => { corr := false, oi := false, om := false, note := "unknown property" }
